@@ -25,6 +25,7 @@ type Env struct {
 	pkg  *types.Package
 	what string
 	inOld bool
+	freshBase string // allocation counter that fresh() compares against (call sites: value before the call)
 }
 
 func (e *Env) with(st *State) *Env {
@@ -819,10 +820,14 @@ func (e *Env) callExpr(n *ast.CallExpr) Val {
 		return BoolV(vc.errIs(arg(0).S, arg(1).S))
 	case "fresh":
 		v := arg(0)
-		if v.K == KSlice {
-			return BoolV(Gt(v.Reg, vc.entryAlloc))
+		base := vc.entryAlloc
+		if e.freshBase != "" {
+			base = e.freshBase
 		}
-		return BoolV(Gt(v.S, vc.entryAlloc))
+		if v.K == KSlice {
+			return BoolV(Gt(v.Reg, base))
+		}
+		return BoolV(Gt(v.S, base))
 	case "disjoint":
 		a, b := arg(0), arg(1)
 		return BoolV(Or(Ne(a.Reg, b.Reg), Le(Add(a.Off, a.Cap), b.Off), Le(Add(b.Off, b.Cap), a.Off)))
